@@ -22,9 +22,14 @@ use std::panic::{catch_unwind, AssertUnwindSafe};
 pub enum TwinKind {
     SaveLoad,
     Clone,
-    /// the twin is a fresh graph onto which the script text is deployed (C14); the
-    /// "history" are the equivalent direct calls
-    Script { text: String, commands: usize },
+    /// the twin is a graph built by the `prefix` calls onto which the script text is deployed
+    /// (C14); the "history" are the prefix followed by the equivalent direct calls
+    Script {
+        text: String,
+        commands: usize,
+        #[serde(default)]
+        prefix: Vec<Call>,
+    },
 }
 
 #[derive(Debug, Clone, PartialEq, Eq, Serialize, Deserialize)]
@@ -77,8 +82,12 @@ impl TwinEngine {
     /// Make the twin of r's graph. Err = violation (panic / Err from save or load).
     fn make_twin(&self, r: &Runner) -> Result<Box<dyn crate::graph::G>, Failure> {
         let res = catch_unwind(AssertUnwindSafe(|| match &self.kind {
-            TwinKind::Script { text, commands } => {
-                let mut g = crate::graph::new_graph(r.cfg.n, r.cfg.cap);
+            TwinKind::Script { text, commands, prefix } => {
+                let mut pre = Runner::new(r.cfg);
+                for c in prefix {
+                    pre.step(c);
+                }
+                let mut g = pre.g;
                 match g.deploy(text) {
                     Ok(n) if n == *commands => Ok(g),
                     Ok(n) => Err(format!("deploy_to() returned {n} but the script has {commands} commands")),
